@@ -220,7 +220,7 @@ fn nth_sequence(len: usize, mut idx: u64) -> Vec<Op> {
 }
 
 fn phase_l1_exhaustive(mon: &mut Monitor, threads: usize) {
-    let max_len: usize = std::env::var("VERIF_L1X_LEN").ok().and_then(|s| s.parse().ok()).unwrap_or(mon.tier.pick(5, 6));
+    let max_len: usize = std::env::var("VERIF_L1X_LEN").ok().and_then(|s| s.parse().ok()).unwrap_or(mon.tier.pick(6, 7));
     let max_len_size3 = max_len.saturating_sub(1);
     // tasks ordered by length first, so that the shortest witnesses are the ones kept
     struct Task {
@@ -252,7 +252,7 @@ fn phase_l1_exhaustive(mon: &mut Monitor, threads: usize) {
         let t = &tasks[s as usize];
         for idx in t.from..t.to {
             let case = L1Case { size: t.size, prefilled: t.prefilled, ops: nth_sequence(t.len, idx) };
-            eval_l1(m, "L1x", &case, false, t.len == 4 && t.size == 2 && t.from == 0);
+            eval_l1(m, "L1x", &case, false, t.len == 4 && t.size == 2 && t.prefilled && t.from == 0);
         }
     });
     mon.extra.insert("l1_exhaustive_max_len".into(), json!(max_len));
@@ -408,8 +408,8 @@ fn l2_make(mon: &Monitor, id: &L2RunId) -> (L2Cfg, [u8; 32], u64) {
 
 fn phase_l2(mon: &mut Monitor, phase: &'static str, with_delay: bool, par: usize) {
     let (shards, per) = match (mon.tier, with_delay) {
-        (Tier::Quick, false) => (12u64, 10u64),
-        (Tier::Quick, true) => (12, 14),
+        (Tier::Quick, false) => (12u64, 12u64),
+        (Tier::Quick, true) => (12, 16),
         (Tier::Thorough, false) => (32, 24),
         (Tier::Thorough, true) => (32, 24),
     };
